@@ -1274,7 +1274,73 @@ class Exec:
         hook = self.hooks.get(("while", self._loop_key(st)))
         if hook is not None:
             return hook(self, st)
-        raise OutOfSubset("while loop without invariant")
+        return self.while_last_iteration(st)
+
+    def while_last_iteration(self, st):
+        """`while c: body` whose body only rebinds local scalar names: summarised, for PARTIAL correctness, by its last
+        iteration - every terminating run that enters the loop has a last iteration, which starts in some state where c
+        holds and ends in one where it does not.  The state before that iteration is havocked (fresh symbols for every
+        name the body assigns; no invariant is inferred or assumed), the body is executed once, and the negated condition
+        is added to the path.  Termination is NOT proved; well-definedness conditions of the body are recorded against the
+        havocked state (the contract using the loop must say how it treats them)."""
+        if st.orelse:
+            raise OutOfSubset("while ... else")
+        names = []
+        for nd in ast.walk(st):
+            if isinstance(nd, (ast.While, ast.For)) and nd is not st:
+                raise OutOfSubset("nested loop inside a while loop")
+            if isinstance(nd, (ast.Return, ast.Break, ast.Continue, ast.Raise, ast.Try, ast.With, ast.Delete, ast.Global, ast.Nonlocal, ast.FunctionDef, ast.Lambda, ast.NamedExpr, ast.Yield, ast.Await)):
+                raise OutOfSubset(f"{type(nd).__name__} inside a while loop")
+            tgs = nd.targets if isinstance(nd, ast.Assign) else ([nd.target] if isinstance(nd, (ast.AugAssign, ast.AnnAssign)) else [])
+            for tg in tgs:
+                for t_ in (tg.elts if isinstance(tg, (ast.Tuple, ast.List)) else [tg]):
+                    if not isinstance(t_, ast.Name):
+                        raise OutOfSubset("while loop body stores into something else than a local name")
+                    if t_.id not in names:
+                        names.append(t_.id)
+        if self.merge_mode:
+            raise OutOfSubset("while loop inside a merged call")
+        fr = self.frames[-1]
+        first = self.truth(self.eval(st.test))  # path split when symbolic: a run that never enters the loop is its own path
+        if not first:
+            return
+        hw0 = self.heap_writes
+        key = len(self.ghost.setdefault("while_loops", []))
+        havoc = {}
+        for nm in names:
+            if nm in fr.env:
+                v = fr.env[nm]
+                if isinstance(v, bool) or not isinstance(v, (int, float, T)):
+                    raise OutOfSubset(f"while loop rebinds {nm}, which is not a scalar")
+                sort = v.sort if isinstance(v, T) else (tm.I if isinstance(v, int) else tm.R)
+                if isinstance(v, T) and sort == tm.B:
+                    raise OutOfSubset("while loop rebinds a boolean")
+                # a python int that the body rebinds may become a float: only floats / reals are havocked as reals
+                havoc[nm] = tm.var(f"{nm}@while{key}", tm.R if sort != tm.I else tm.I)
+                if sort == tm.I and not isinstance(v, T):
+                    havoc[nm] = tm.var(f"{nm}@while{key}", tm.R)  # e.g. `fdum = 1` before a loop that assigns floats
+                fr.env[nm] = havoc[nm]
+        entry = self.eval(st.test)
+        if isinstance(entry, (bool, int, float)) and not isinstance(entry, T):
+            raise OutOfSubset("while condition does not depend on the loop state")
+        entry = tm.lift(entry) if entry.sort == tm.B else tm.ne(entry, tm.const(0))
+        self.pc.append(entry)
+        self.loop_kinds.append("while")
+        try:
+            self.exec_block(st.body)
+        finally:
+            self.loop_kinds.pop()
+        if self.heap_writes != hw0:
+            raise OutOfSubset("while loop body writes to the heap")
+        post = {nm: fr.env.get(nm) for nm in names}
+        ex_ = self.eval(st.test)
+        if not isinstance(ex_, T):
+            raise OutOfSubset("while condition is concrete after the body")
+        ex_ = tm.lift(ex_) if ex_.sort == tm.B else tm.ne(ex_, tm.const(0))
+        self.pc.append(tm.lnot(ex_))
+        self.ghost["while_loops"].append({"names": names, "havoc": havoc, "post": post, "entry": entry, "exit": tm.lnot(ex_), "lineno": st.lineno})
+        from . import libmodels
+        libmodels.used(self, "while loop summarised by its last iteration from a havocked state (partial correctness only: no invariant, termination not proved)")
 
     def _loop_key(self, st):
         # ordinal of the loop inside its function
